@@ -656,6 +656,42 @@ func (wd *world) start(x *ssn, rng *rand.Rand, withClose bool) {
 	x.st = "run"
 }
 
+// coldStart: first use under contention - every session of a fresh manager is started at the same
+// moment, each from a goroutine of its own, released together.
+func (wd *world) coldStart() {
+	type res struct{ i, id int }
+	gate, done := make(chan struct{}), make(chan res, len(wd.ss))
+	for i, x := range wd.ss {
+		wd.ensure(x)
+		go func(i int, x *ssn) {
+			id := goid()
+			<-gate
+			if wd.useDo {
+				wd.mgr.Do(x.conn)
+			} else {
+				x.sess.Start()
+			}
+			done <- res{i, id}
+		}(i, x)
+	}
+	callMu.Lock()
+	close(gate)
+	t := time.NewTimer(freeBudget)
+	for range wd.ss {
+		select {
+		case r := <-done:
+			x := wd.ss[r.i]
+			x.starter, x.st = r.id, "run"
+			wd.fire(tr.E{"op": "start", "s": x.id, "r": "admitted"})
+		case <-t.C:
+			stuck(wd.w, "stuck", "Start / Do did not return when all sessions were started together")
+		}
+	}
+	t.Stop()
+	callMu.Unlock()
+	wd.sync()
+}
+
 // step performs one plan action if it is applicable; reports whether something was done.
 // callMu makes "call into the session + record it" one unit, for the driver and for the handlers'
 // own re-entrant calls alike, so that the order of the log is the order of the calls.  It is never
@@ -850,6 +886,9 @@ func (wd *world) drain(rng *rand.Rand) {
 
 func runPlan(w *tr.W, rng *rand.Rand, o opts, src string, n int, own, useDo, empty bool, plan []act) {
 	wd := newWorld(w, rng, o, n, own, useDo, empty, src)
+	if rng.Intn(5) == 0 {
+		wd.coldStart()
+	}
 	for i := 0; i < len(plan); i++ {
 		a := plan[i]
 		// a held start directly followed by close of the same session (or the other way round) is a
@@ -1464,6 +1503,12 @@ func (fw *fworld) finish(rng *rand.Rand) {
 		fw.stopServer() // sessions outlive the listener
 	}
 	if al := fw.alive(); !fw.failed && len(al) > 1 && rng.Intn(2) == 0 {
+		// at most three at once: TLC has to interleave the exits of all of them
+		for len(al) > 3 {
+			fw.end(al[0], "close")
+			fw.sync()
+			al = al[1:]
+		}
 		var wg sync.WaitGroup
 		gate := make(chan struct{})
 		for _, x := range al {
@@ -1483,10 +1528,12 @@ func (fw *fworld) finish(rng *rand.Rand) {
 			fw.awaitEnd(x, true)
 		}
 		stop()
+		fw.sync()
 	}
 	for _, x := range fw.alive() {
 		if !fw.failed {
 			fw.end(x, "close")
+			fw.sync() // one at a time for TLC as well: sessions that are left open multiply its states
 		}
 	}
 	fw.sync()
@@ -1559,6 +1606,7 @@ func runFree(w *tr.W, rng *rand.Rand, idx int) bool {
 				fw.send(x, rng)
 			}
 		}
+		fw.sync()
 		fw.finish(rng)
 		return !fw.failed
 	case 7:
